@@ -77,8 +77,8 @@ type c17Row struct {
 }
 
 // c17Check verifies the layout of one help text.
-func c17Check(out string, rows []c17Row, W int) (string, string, int) {
-	if !utf8.ValidString(out) {
+func c17Check(out string, rows []c17Row, W int, legacyBytes bool) (string, string, int) {
+	if !legacyBytes && !utf8.ValidString(out) {
 		i := 0
 		for i < len(out) {
 			ru, n := utf8.DecodeRuneInString(out[i:])
@@ -324,6 +324,30 @@ func c17Run(c *Ctx) {
 		c.Unspec("declaration rejected (name collision after renaming): " + errTypeName(b.Err))
 		return
 	}
+	legacyBytes := false
+	if script == 1 && c.K%3 == 1 && d.resolveLive(b) == "" {
+		// descriptions from a message catalogue in a legacy single-byte encoding (assigned through the public
+		// Description field): every byte that is not part of a valid UTF-8 sequence is one character of unknown
+		// width 1 - the words are kept byte for byte and the layout rules hold
+		for _, o := range d.Opts {
+			if o.FO == nil || o.Desc == "" {
+				continue
+			}
+			var bs []byte
+			for _, ru := range o.Desc {
+				if ru >= 0x80 && ru < 0x100 {
+					bs = append(bs, byte(ru))
+				} else {
+					bs = append(bs, string(ru)...)
+				}
+			}
+			if len(bs) != len(o.Desc) {
+				o.Desc = string(bs)
+				o.FO.Description = o.Desc
+				legacyBytes = true
+			}
+		}
+	}
 	// choose an active chain
 	var chain []*Cmd
 	cur := d.Root
@@ -469,7 +493,7 @@ func c17Run(c *Ctx) {
 		return
 	}
 	// the built-in help row belongs to the root; its first "word" is a phrase: find by phrase, words as given
-	sig, msg, D := c17Check(out, rows, eff)
+	sig, msg, D := c17Check(out, rows, eff, legacyBytes)
 	if sig != "" {
 		c.Violate(sig, "width %d: %s", W, msg)
 		c.Note("help", clip(out, 4000))
@@ -479,6 +503,9 @@ func c17Run(c *Ctx) {
 	cell := fmt.Sprintf("w%03d-%03d/%s", (W/50)*50, (W/50)*50+49, []string{"ascii", "latin1", "greek", "cyrillic"}[script])
 	if nameScript != 0 {
 		cell += "/names-nonascii"
+	}
+	if legacyBytes {
+		cell += "/descriptions-in-single-byte-encoding"
 	}
 	c.Held(cell, fmt.Sprintf("W=%d D=%d rows=%d chain=%d widened-after-first-help=%v", W, D, len(rows), len(chain), histWiden))
 }
